@@ -100,7 +100,8 @@ RecoverSkip ==
   IF FirstBad = n + 1 THEN {1..n}
   ELSE LET b == FirstBad  s == See(b) IN
        IF s \in {"absent", "cut"} THEN {1..(b - 1)}
-       ELSE IF s = "metaflip" THEN {1..(b - 1), 1..n, (1..n) \ {b}}   \* does not parse / parses / parses to another size
+       ELSE IF s = "metaflip" THEN {1..n, (1..n) \ {b}}   \* parses to the same size / does not parse or parses to another size:
+                                                            \* the header is intact, so the damage is isolated and skipped
        ELSE IF s \in {"hdrval", "recval"} THEN {(1..n) \ {b}}   \* the rest is intact (single damage)
        ELSE \* garbage sizes: before the damage for sure; whatever else is produced must be sound
             {S \in SUBSET (1..n) : (1..(b - 1)) \subseteq S /\ b \notin S}
@@ -142,7 +143,8 @@ NoLoss == \A S \in RecoverSkip \cup RecoverPlain : \A i \in 1..(FirstBad - 1) : 
 OnlyIntact == \A S \in RecoverSkip \cup RecoverPlain : \A i \in S : See(i) \in {"ok", "metaflip"}
 SkipRecoversMore == \A P \in RecoverPlain : \E S \in RecoverSkip : P \subseteq S
 AfterIsolatedDamage ==
-  (FirstBad <= n /\ See(FirstBad) \in {"hdrval", "recval"}) => \A S \in RecoverSkip : S = (1..n) \ {FirstBad}
+  /\ (FirstBad <= n /\ See(FirstBad) \in {"hdrval", "recval"}) => \A S \in RecoverSkip : S = (1..n) \ {FirstBad}
+  /\ (FirstBad <= n /\ See(FirstBad) = "metaflip") => \A S \in RecoverSkip : (1..n) \ {FirstBad} \subseteq S
 AcceptIffWellFormed == (Validate = "accept") <=> (~HeaderFails /\ ~(dmg.kind = "flip" /\ dmg.rec = 0) /\ \A i \in Present : See(i) = "ok")
 
 \* C16, index part: accepted = produced by the storage for this very blob
